@@ -1,0 +1,82 @@
+//go:build verif
+
+package router
+
+// Add-only hooks for the C19 correspondence check (prefetch is single-flight and never delays a hit):
+// the real needPrefetch, the real prefetchCtl (reserve/done), the real keyForPrefetch, and a read-only
+// view of the running router's in-flight set.
+
+import (
+	"net/netip"
+	"sort"
+	"strings"
+	"time"
+
+	"github.com/IrineSistiana/mosproxy/internal/dnsmsg"
+)
+
+// VerifNeedPrefetch calls needPrefetch(base+storedOff, base+expireOff) where base is "now".
+// needPrefetch reads the clock itself; [lo, hi] (relative to base) brackets that reading.
+func VerifNeedPrefetch(storedOff, expireOff time.Duration) (need bool, lo, hi time.Duration) {
+	base := time.Now()
+	stored := base.Add(storedOff)
+	expire := base.Add(expireOff)
+	t1 := time.Now()
+	need = needPrefetch(stored, expire)
+	t2 := time.Now()
+	return need, t1.Sub(base), t2.Sub(base)
+}
+
+// VerifPrefetchCtl wraps a real prefetchCtl.
+type VerifPrefetchCtl struct{ c *prefetchCtl }
+
+func VerifNewPrefetchCtl() *VerifPrefetchCtl { return &VerifPrefetchCtl{c: newPrefetchCtl()} }
+
+func (v *VerifPrefetchCtl) Reserve(k uint64) bool { return v.c.reserve(k) }
+func (v *VerifPrefetchCtl) Done(k uint64)         { v.c.done(k) }
+
+// Keys returns the queue's keys, sorted.
+func (v *VerifPrefetchCtl) Keys() []uint64 {
+	v.c.m.Lock()
+	defer v.c.m.Unlock()
+	out := make([]uint64, 0, len(v.c.queue))
+	for k := range v.c.queue {
+		out = append(out, k)
+	}
+	sort.Slice(out, func(i, j int) bool { return out[i] < out[j] })
+	return out
+}
+
+// VerifPrefetchKeyer is a cacheCtl that has only an (optional) ip marker, for keyForPrefetch.
+type VerifPrefetchKeyer struct{ c *cacheCtl }
+
+// markerText: lines "start,end,label" as in an ip_marker file ("" = no marker).
+func VerifNewPrefetchKeyer(markerText string) (*VerifPrefetchKeyer, error) {
+	c := &cacheCtl{}
+	if markerText != "" {
+		m, err := loadIpMarkerFromReader(strings.NewReader(markerText))
+		if err != nil {
+			return nil, err
+		}
+		c.ipMarker = m
+	}
+	return &VerifPrefetchKeyer{c: c}, nil
+}
+
+func (v *VerifPrefetchKeyer) Key(name []byte, typ, class uint16, addr netip.Addr) uint64 {
+	q := dnsmsg.NewQuestion()
+	q.Name = append(q.Name[:0], name...)
+	q.Type = dnsmsg.Type(typ)
+	q.Class = dnsmsg.Class(class)
+	defer dnsmsg.ReleaseQuestion(q)
+	return v.c.keyForPrefetch(q, addr)
+}
+
+// VerifPrefetchInflight: size of the running router's in-flight refresh set.
+func (v *VerifRouter) VerifPrefetchInflight() int {
+	v.r.prefetch.m.Lock()
+	defer v.r.prefetch.m.Unlock()
+	return len(v.r.prefetch.queue)
+}
+
+const VerifPrefetchTimeout = prefetchTimeout
